@@ -6,17 +6,17 @@ import glob, json, os, re, shutil
 confirm = {}
 for f in glob.glob('/verif/work/confirm*.txt'):
     for line in open(f):
-        m = re.match(r'CONFIRM /tmp/mut([BCDE]?)_(C\d+)/m(\d): (.*)', line.strip())
+        m = re.match(r'CONFIRM /tmp/mut([BCDEF]?)_(C\d+)/m(\d): (.*)', line.strip())
         if m:
-            confirm[(m.group(2), {'': 'm', 'B': 'b', 'C': 'c', 'D': 'd', 'E': 'e'}[m.group(1)] + m.group(3))] = m.group(4)
+            confirm[(m.group(2), {'': 'm', 'B': 'b', 'C': 'c', 'D': 'd', 'E': 'e', 'F': 'f'}[m.group(1)] + m.group(3))] = m.group(4)
 detect = {}
 order = sorted(glob.glob('/verif/work/mutants*.txt'), key=os.path.getmtime)
 for f in order:
     cur = None
     for line in open(f):
-        m = re.match(r'### ([BCDE]?)(C\d+)/m(\d)', line)
+        m = re.match(r'### ([BCDEF]?)(C\d+)/m(\d)', line)
         if m:
-            cur = (m.group(2), {'': 'm', 'B': 'b', 'C': 'c', 'D': 'd', 'E': 'e'}[m.group(1)] + m.group(3))
+            cur = (m.group(2), {'': 'm', 'B': 'b', 'C': 'c', 'D': 'd', 'E': 'e', 'F': 'f'}[m.group(1)] + m.group(3))
             continue
         m = re.match(r'(C\d+) (DETECTED|MISSED|SILENT|TOOLERR)(.*)', line)
         if m and cur:
@@ -26,7 +26,7 @@ for f in order:
                                                       "history": prev + [{"run": os.path.basename(f), "result": m.group(2)}]}
 n = 0
 for (prop, mi), conf in sorted(confirm.items()):
-    src = '/tmp/mut%s_%s/m%s' % ({'m': '', 'b': 'B', 'c': 'C', 'd': 'D', 'e': 'E'}[mi[0]], prop, mi[1:])
+    src = '/tmp/mut%s_%s/m%s' % ({'m': '', 'b': 'B', 'c': 'C', 'd': 'D', 'e': 'E', 'f': 'F'}[mi[0]], prop, mi[1:])
     if not os.path.exists(src + '/patch.diff'):
         if os.path.exists('/verif/seeded/%s-%s/meta.json' % (prop, mi)):
             mj = json.load(open('/verif/seeded/%s-%s/meta.json' % (prop, mi)))
@@ -41,7 +41,7 @@ for (prop, mi), conf in sorted(confirm.items()):
     os.makedirs(dst, exist_ok=True)
     for fn in ('patch.diff', 'demo.rs', 'README.txt'):
         shutil.copy(os.path.join(src, fn), os.path.join(dst, fn))
-    extra = '/tmp/mut%s_%s/cargo_toml_dev_dep.diff' % ({'m': '', 'b': 'B', 'c': 'C', 'd': 'D', 'e': 'E'}[mi[0]], prop)
+    extra = '/tmp/mut%s_%s/cargo_toml_dev_dep.diff' % ({'m': '', 'b': 'B', 'c': 'C', 'd': 'D', 'e': 'E', 'f': 'F'}[mi[0]], prop)
     if os.path.exists(extra):
         shutil.copy(extra, os.path.join(dst, 'cargo_toml_dev_dep.diff'))
     readme = open(os.path.join(src, 'README.txt')).read()
